@@ -250,6 +250,7 @@ class MachineVariables(LogMixin):
         except KeyError:
             pass
         else:
+            self._post_machine_var_removed(name, prev_value)
             if self.machine_var_monitor:
                 for callback in self.machine.monitors['machine_vars']:
                     callback(name=name, value=None,
@@ -268,6 +269,15 @@ class MachineVariables(LogMixin):
         """
         for var in list(self.machine_vars.keys()):
             if var.startswith(startswith) and var.endswith(endswith):
+                prev_value = self.machine_vars[var]
                 del self.machine_vars[var]
+                self._post_machine_var_removed(var, prev_value)
 
         self._write_machine_vars_to_disk()
+
+    def _post_machine_var_removed(self, name: str, prev_settings: Dict[str, Any]) -> None:
+        """Tell listeners (e.g. subscribed placeholders) that the variable is gone and now reads as None."""
+        self.machine.events.post('machine_var_' + name,
+                                 value=None,
+                                 prev_value=prev_settings['value'],
+                                 change=True)
